@@ -130,8 +130,12 @@ kf("C05", "C05-forward-call-inside-bitcast", 'forward call inside a bitcast oper
 # ---------------------------------------------------------------- C10 (robustness)
 kf("C10", "C10-swizzle-chain-exponential", "a chained swizzle `v.xyzw.xyzw...` makes lowering time and memory grow exponentially: 64 links (under 400 bytes of source) exceed the CPU cap or, on a faster machine, exhaust the 4 GiB address-space limit first (out of memory in Lowerer.addExpressionRaw)",
    ["C10|cpu-cap|ladder:swizzle-chain n=*", "C10|fatal|out of memory|wgsl/internal/lower.(*Lowerer).addExpressionRaw"])
-kf("C10", "C10-glsl-zero-init-oom", "GLSL writer expands the zero value of a huge private array element by element (zeroInitValue): `var<private> a: array<i32, 2147483647>` dies with out-of-memory",
-   ["C10|fatal|out of memory|glsl/internal/codegen.(*Writer).zeroInitValue"])
+kf("C10", "C10-glsl-zero-init-oom", "GLSL writer expands the zero value of a huge private/function array element by element (zeroInitValue): `var<private> a: array<i32, 2147483647>` dies with out-of-memory; so does `array<i32, -1>` (a negative size is accepted and becomes 4294967295 elements), in every host the C11 programs put it in",
+   ["C10|fatal|out of memory|glsl/internal/codegen.(*Writer).zeroInitValue", "C10|feat|arr-negative-size|fatal|out of memory|glsl/internal/codegen.(*Writer).zeroInitValue"])
+kf("C10", "C10-hlsl-array-constructor-oom", "HLSL writer expands a zero-value / constructor of an array with 4294967295 elements (negative size `array<A, -1>` accepted by the front end) element by element (writeArrayConstructor): out of memory",
+   ["C10|fatal|out of memory|hlsl/internal/codegen.(*Writer).writeArrayConstructor"])
+kf("C10", "C10-hlsl-storage-load-expansion", "loading a whole storage array of 4294967295 elements (`var<storage, read_write> ht: array<array<i32, -1>, 2>; ... let t = ht;`, the negative size is accepted by the front end) makes the HLSL writer expand the load element by element (writeStorageLoad): CPU cap (or memory) exceeded",
+   ["C10|cpu-cap|c11-programs|hlsl", "C10|fatal|out of memory|hlsl/internal/codegen.(*Writer).writeStorage*"])
 kf("C10", "C10-dxil-load-store-recursion", "DXIL emitter recurses forever (tryLoadSingleStore -> emitExpression -> emitLoad ...) on a compound assignment to a struct member whose only store depends on a load of itself (`out.pos /= m * v;`): stack overflow on a valid program",
    ["C10|fatal|stack overflow|dxil/internal/emit.(*Emitter).emitBinary+*+dxil/internal/emit.(*Emitter).emitLoad+*dxil/internal/emit.(*Emitter).tryLoadPromotedLocal*"])
 kf("C10", "C10-lower-nested-vec-template", "`vec2<vec2<f32>>` (vector of vector) panics in resolveParameterizedType: interface conversion ir.VectorType, not ir.ScalarType",
@@ -139,11 +143,28 @@ kf("C10", "C10-lower-nested-vec-template", "`vec2<vec2<f32>>` (vector of vector)
 kf("C10", "C10-lower-template-args-index", "a template type with missing arguments (e.g. `mat4x4<>`/`vec3<>` after a byte edit) panics in resolveParameterizedType: index out of range",
    ["C10|panic|*|runtime error: index out of range [#] with length #|wgsl/internal/lower.(*Lowerer).resolveParameterizedType"])
 kf("C10", "C10-lower-texture-sample-args", "textureSample* called with too few arguments panics in lowerTextureSample: index out of range",
-   ["C10|panic|*|runtime error: index out of range [#] with length #|wgsl/internal/lower.(*Lowerer).lowerTextureSample"])
+   ["C10|panic|*|runtime error: index out of range [#] with length #|wgsl/internal/lower.(*Lowerer).lowerTextureSample",
+    "C10|feat|tex-sample-too-few-args|panic|*|runtime error: index out of range [#] with length #|wgsl/internal/lower.(*Lowerer).lowerTextureSample"])
+kf("C10", "C10-lower-texture-load-args", "textureLoad called with a single argument (`textureLoad(1.5);`, any argument kind) panics in lowerTextureLoad: index out of range",
+   ["C10|panic|*|runtime error: index out of range [#] with length #|wgsl/internal/lower.(*Lowerer).lowerTextureLoad"])
 kf("C10", "C10-spirv-void-call-value", "a value-less call used as an argument (`g(v())`) lowers to handle 0 and the SPIR-V backend indexes past the expression arena in emitExpression: index out of range",
-   ["C10|panic|spirv*|runtime error: index out of range [#] with length #|spirv/internal/codegen.(*ExpressionEmitter).emitExpression"])
-kf("C10", "C10-spirv-consume-block-nil", "code after a `continue`/`break` at the end of a loop body construct (token edit of loops_all_forms) leaves no current block: nil dereference in consumeBlock",
-   ["C10|panic|*|runtime error: invalid memory address or nil pointer dereference|spirv/internal/codegen.(*ExpressionEmitter).consumeBlock"])
+   ["C10|panic|spirv*|runtime error: index out of range [#] with length #|spirv/internal/codegen.(*ExpressionEmitter).emitExpression",
+    "C10|feat|fn-void-call-as-arg|panic|*|runtime error: index out of range [#] with length #|spirv/internal/codegen.(*ExpressionEmitter).emitExpression"])
+kf("C10", "C10-spirv-consume-block-nil", "code after a `continue`/`break` at the end of a loop body construct (token edit of loops_all_forms), or `break`/`continue`/`return`/`discard` inside a `continuing` block, leaves no current block: nil dereference in consumeBlock",
+   ["C10|panic|*|runtime error: invalid memory address or nil pointer dereference|spirv/internal/codegen.(*ExpressionEmitter).consumeBlock",
+    "C10|feat|stmt-loop-*-in-continuing|panic|*|runtime error: invalid memory address or nil pointer dereference|spirv/internal/codegen.(*ExpressionEmitter).consumeBlock"])
+kf("C10", "C10-lower-override-self-reference", "an override whose initialiser names itself (`override a: i32 = a;`, also reached from @workgroup_size(a)) recurses without bound in Lowerer.buildOverrideGlobalExpr: stack overflow (a mutual cycle `a = b; b = a` is diagnosed)",
+   ["C10|feat|cycle-override-self|fatal|stack overflow|wgsl/internal/lower.(*Lowerer).buildOverrideGlobalExpr", "C10|feat|cycle-wgsize-override|fatal|stack overflow|wgsl/internal/lower.(*Lowerer).buildOverrideGlobalExpr",
+    "C10|feat|cycle-override-self|cpu-cap|features|*", "C10|feat|cycle-wgsize-override|cpu-cap|features|*"])
+kf("C10", "C10-subgroup-result-as-operand", "the result of a subgroup shuffle or quad operation used as an operand of a binary operator (`subgroupShuffle(u, 1u) + subgroupShuffleXor(u, 1u)`, `quadBroadcast(u, 1u) + quadSwapX(u)`; valid WGSL) has no recorded type: resolveBinaryType indexes past the type table in ir.TypeResInner",
+   ["C10|feat|stage-*-subgroup-ops|panic|*|runtime error: index out of range [#] with length #|ir.TypeResInner", "C10|feat|stage-*-quad-ops|panic|*|runtime error: index out of range [#] with length #|ir.TypeResInner"])
+kf("C10", "C10-spirv-ray-query-intersection-after-image", "a module that uses an image operation before rayQueryGetCommittedIntersection (`_ = textureLoad(t, vec2<i32>(0), 0); var rq: ray_query; let i = rayQueryGetCommittedIntersection(&rq);`; each alone compiles) makes the SPIR-V backend index past the type arena in Backend.emitType",
+   ["C10|feat|tex-2d-helper*stage-*-ray-query|panic|*|runtime error: index out of range [#] with length #|spirv/internal/codegen.(*Backend).emitType",
+    "C10|feat|stage-*-ray-query&tex-2d-helper|panic|*|runtime error: index out of range [#] with length #|spirv/internal/codegen.(*Backend).emitType"])
+kf("C10", "C10-dxil-uav-store-component-overflow", "a store into `array<array<array<u32, 65536>, 65536>, 65536>` in a storage buffer (byte size overflows 32 bits) makes the DXIL emitter loop over about 2^32 components in emitUAVStoreBatched: CPU cap (or memory) exceeded from a 150-byte source",
+   ["C10|feat|arr-nested-byte-overflow|cpu-cap|features|dxil", "C10|feat|arr-nested-byte-overflow|fatal|out of memory|dxil/*"])
+kf("C10", "C10-hlsl-struct-padding-expansion", "`struct S { @align(2147483648) a: f32, b: f32 }` in a uniform buffer: the HLSL writer emits one padding member per 4 bytes of the gap (writeStructDefinition), i.e. 2^29 lines from a 100-byte source: CPU cap or the 4 GiB limit exceeded",
+   ["C10|feat|struct-align-huge|cpu-cap|features|hlsl", "C10|feat|struct-align-huge|fatal|out of memory|*"])
 
 # ---------------------------------------------------------------- C02 (SPIR-V structure)
 kf("C02", "C02-wgul-aggregate-load-type", "`workgroupUniformLoad(&warr)` / `(&wst)` on a workgroup array or struct emits an OpLoad whose result type differs from the pointee type of the workgroup variable",
